@@ -1019,6 +1019,29 @@ static void rtr_purge_records_after_failed_undo(struct rtr_socket *rtr_socket)
 	rtr_socket->request_session_id = true;
 }
 
+/*
+ * @brief Puts the completely built shadow tables in place of the live tables in one step.
+ * The write locks of both live tables are held across both swaps, so no reader can see the new
+ * prefixes together with the old router keys (or the other way round).
+ * Lock order: pfx_table before spki_table; nothing else holds locks of both tables at once.
+ */
+static void rtr_swap_tables(struct rtr_socket *rtr_socket, struct pfx_table *pfx_shadow_table,
+			    struct spki_table *spki_shadow_table)
+{
+	pthread_rwlock_wrlock(&rtr_socket->pfx_table->lock);
+	pthread_rwlock_wrlock(&rtr_socket->spki_table->lock);
+	pthread_rwlock_wrlock(&pfx_shadow_table->lock);
+	pthread_rwlock_wrlock(&spki_shadow_table->lock);
+
+	pfx_table_swap_locked(rtr_socket->pfx_table, pfx_shadow_table);
+	spki_table_swap_locked(rtr_socket->spki_table, spki_shadow_table);
+
+	pthread_rwlock_unlock(&spki_shadow_table->lock);
+	pthread_rwlock_unlock(&pfx_shadow_table->lock);
+	pthread_rwlock_unlock(&rtr_socket->spki_table->lock);
+	pthread_rwlock_unlock(&rtr_socket->pfx_table->lock);
+}
+
 void recv_loop_cleanup(void *p)
 {
 	struct recv_loop_cleanup_args *args = p;
@@ -1282,8 +1305,7 @@ static int rtr_sync_receive_and_store_pdus(struct rtr_socket *rtr_socket)
 			RTR_DBG1("spki data added");
 			if (rtr_socket->is_resetting) {
 				RTR_DBG1("Reset finished. Swapping new table in.");
-				pfx_table_swap(rtr_socket->pfx_table, pfx_shadow_table);
-				spki_table_swap(rtr_socket->spki_table, spki_shadow_table);
+				rtr_swap_tables(rtr_socket, pfx_shadow_table, spki_shadow_table);
 
 				if (rtr_socket->pfx_table->update_fp) {
 					RTR_DBG1("Calculating and notifying pfx diff");
